@@ -206,6 +206,7 @@ func handleRequest(clientID string, req *ntp.Packet, rxt, txt *time.Time, resp *
 			tssMetrics.tssValues.Inc()
 		}
 	}
+	traceOp("H", clientID, req, rxt, txt, resp)
 }
 
 func updateTXTimestamp(clientID string, rxt time.Time, txt *time.Time) {
@@ -259,4 +260,5 @@ func updateTXTimestamp(clientID string, rxt time.Time, txt *time.Time) {
 			}
 		}
 	}
+	traceOp("U", clientID, nil, &rxt, txt, nil)
 }
